@@ -126,6 +126,35 @@ Proof.
   rewrite Hv. exact Hoff.
 Qed.
 
+(* the same, with the position taken in the stream of the reveal inputs: the first inputs are
+   the parents' outputs, in order *)
+Theorem parents_return_fifo : forall b c j v off,
+  nth_error (b_parents b) j = Some (v, off) -> off < v ->
+  nth_error (reveal_input_values b c) j = Some v /\
+  locate (reveal_outputs b) (sum (firstn j (reveal_input_values b c)) + off) = Some (N.of_nat j, off).
+Proof.
+  intros b c j v off Hn Hoff.
+  assert (Hj : (j < length (map fst (b_parents b)))%nat).
+  { rewrite map_length. apply nth_error_Some. rewrite Hn. discriminate. }
+  unfold reveal_input_values. split.
+  - rewrite nth_error_app1 by exact Hj. rewrite nth_error_map, Hn. reflexivity.
+  - rewrite firstn_app. replace (j - length (map fst (b_parents b)))%nat with 0%nat by lia.
+    cbn [firstn]. rewrite app_nil_r. apply (parents_return b j v off Hn Hoff).
+Qed.
+
+(* the commit output is the input right after them (and after the satpoints) *)
+Theorem commit_input_position : forall b c,
+  nth_error (reveal_input_values b c) (N.to_nat (commit_input b)) = Some c /\
+  (N.to_nat (commit_input b) + 1 = length (reveal_input_values b c))%nat.
+Proof.
+  intros b c. unfold commit_input, reveal_input_values. rewrite Nat2N.id.
+  rewrite app_assoc. split.
+  - rewrite nth_error_app2.
+    + rewrite app_length, map_length. destruct (b_mode b); rewrite Nat.sub_diag; reflexivity.
+    + rewrite app_length, map_length. destruct (b_mode b); cbn [length]; lia.
+  - rewrite app_length, app_length, map_length. destruct (b_mode b); cbn [length]; lia.
+Qed.
+
 (* rune: the reported output is the one the runestone points to: the rune change output of
    TARGET_POSTAGE, which exists and is followed by the runestone (OP_RETURN) output *)
 Theorem rune_output : forall b v, rune_vout b = Some v ->
